@@ -1,6 +1,7 @@
 package operators
 
 import (
+	"github.com/shopspring/decimal"
 	"strings"
 
 	"github.com/nyaruka/goflow/envs"
@@ -103,8 +104,17 @@ var Divide = numericalBinary(func(env envs.Environment, num1 *types.XNumber, num
 //
 // @operator exponent "^"
 var Exponent = numericalBinary(func(env envs.Environment, num1 *types.XNumber, num2 *types.XNumber) types.XValue {
+	// the result has roughly digits(base) * exponent digits - refuse to compute anything unreasonably large
+	// rather than tying up the host, e.g. 2 ^ 9223372036854775807
+	digits := decimal.NewFromInt(int64(num1.Native().NumDigits())).Mul(num2.Native().Abs())
+	if digits.GreaterThan(maxExponentResultDigits) {
+		return types.NewXErrorf("exponent out of range")
+	}
+
 	return types.NewXNumber(num1.Native().Pow(num2.Native()))
 })
+
+var maxExponentResultDigits = decimal.NewFromInt(1_000_000)
 
 // LessThan returns true if the first number is less than the second.
 //
